@@ -96,6 +96,7 @@ class Endpoint:
         self.calls = 0
         self.timer_fired = 0
         self.pto_fired_since_send = False
+        self.spin = 0
 
 
 def make_configs(opts: dict):
@@ -246,6 +247,7 @@ class SimNet:
         self.stopped_reason = None
         self.datagrams = {"client": [], "server": []}
         self.in_flight = 0
+        self.timer_spins = 0
         self.written = {}  # (side, stream_id) -> bytes written
         self.fin_written = set()
         self.reset_by_sender = set()  # (side, sid)
@@ -295,6 +297,16 @@ class SimNet:
             ep.timer_gen += 1
             if t is not None and not (isinstance(t, float) and (math.isnan(t) or math.isinf(t))):
                 late = self.lateness * self.rng.random() if self.lateness else 0.0
+                if t <= self.now and cause == "timer":
+                    # the connection re-armed an already expired deadline right after its timer fired
+                    # (e.g. an ACK it may not send yet on an amplification-limited path). A real event
+                    # loop would spin; virtual time must still advance, so fire with growing lateness
+                    # (firing late is always allowed to the caller).
+                    ep.spin += 1
+                    self.timer_spins += 1
+                    late += min(0.001 * (2 ** min(ep.spin, 10)), 0.05)
+                else:
+                    ep.spin = 0
                 self._push(max(t, self.now) + late, "timer", (ep.name, ep.timer_gen))
         for m in self.monitors:
             m.on_step(ep, self.now, cause)
